@@ -134,15 +134,16 @@ func produceOrderByItems(ctx ProduceContext, recordCounts *btree.BTree, limit *i
 	i := int64(0)
 	var outErr error
 	recordCounts.Ascend(func(item btree.Item) bool {
-		if limit != nil && i >= *limit {
-			return false
-		}
-		i++
 		itemTyped, ok := item.(*orderByItem)
 		if !ok {
 			panic(fmt.Sprintf("invalid order by item: %v", item))
 		}
-		for i := 0; i < itemTyped.Count; i++ {
+		for j := 0; j < itemTyped.Count; j++ {
+			// The limit counts rows, so duplicate rows (one item with Count > 1) are counted individually.
+			if limit != nil && i >= *limit {
+				return false
+			}
+			i++
 			if err := produce(ctx, NewRecord(itemTyped.Values, false, time.Time{})); err != nil {
 				outErr = err
 				return false
